@@ -142,7 +142,7 @@ PROPS["C09"] = dict(
           "Non-trivial: a literal stretch > 60 bytes, or a repetitive stretch >= 68 bytes, or a back-reference that crosses the 64 KiB line "
           "of an input > 64 KiB. Distinct = FNV-1a-64 of the serialised case."),
     assumptions=["compress_bound(n) is the advertised bound; src/dst pointers are non-NULL also for empty inputs"],
-    engines=[pbt("c09_codecs", quick=dict(cases=2000, size=100, procs=4), thorough=dict(cases=4000, size=200, procs=16))],
+    engines=[pbt("c09_codecs", libs=["rapidcheck", "snappy", "lz4"], quick=dict(cases=2000, size=100, procs=4), thorough=dict(cases=4000, size=200, procs=16))],
     min_evaluations=dict(quick=1500, thorough=30000),
 )
 
@@ -470,6 +470,6 @@ PROPS["C19"] = dict(
     rule=("evaluations count (scenario, k) runs in which the k-th allocation really failed. Non-trivial: a scenario in which some failing request lies behind the third "
           "allocation (i.e. after the handle was created)."),
     assumptions=["only allocation requests made by carquet's own objects are failed; zlib/zstd/libc internals are not touched"],
-    engines=[pbt("c19_alloc", libs=["rapidcheck", "snappy", "lz4"], ldflags=["-Wl,--wrap=malloc,--wrap=calloc,--wrap=realloc,--wrap=strdup"], quick=dict(cases=40, size=60, procs=8), thorough=dict(cases=800, size=100, procs=16))],
+    engines=[pbt("c19_alloc", libs=["rapidcheck", "snappy", "lz4"], ldflags=["-Wl,--wrap=malloc,--wrap=calloc,--wrap=realloc,--wrap=strdup"], quick=dict(cases=80, size=60, procs=8), thorough=dict(cases=800, size=100, procs=16))],
     min_evaluations=dict(quick=5000, thorough=150000),
 )
